@@ -65,6 +65,7 @@ type Sink struct {
 	After   int // calls made after the first failure
 	Err     error
 	ErrKind string // errKinds
+	Full    bool   // the failing call takes ALL its bytes and returns the error with the full count (io.Writer allows that)
 	Base    int    // where the current stream starts in Buf (Reset onto the same destination keeps what is there)
 }
 
@@ -80,6 +81,10 @@ func (s *Sink) Write(p []byte) (int, error) {
 	if s.FailAt > 0 && s.Calls >= s.FailAt {
 		s.Failed = true
 		s.Err = newInjectedKind(s.ErrKind)
+		if s.Full {
+			s.Buf = append(s.Buf, p...)
+			return len(p), s.Err
+		}
 		if s.Partial && len(p) > 1 {
 			s.Buf = append(s.Buf, p[:len(p)/2]...)
 			return len(p) / 2, s.Err
